@@ -180,7 +180,8 @@ async fn run_case(cx: &Ctx<'_>, seed: u64, idx: u64, thorough: bool, selftest: b
     let mut h = match Hist::create(&mut rng, cfg.clone(), &format!("c18-{seed}-{idx}"), (idx % 4000) as usize + 1).await {
         Ok(h) => h,
         Err(e) => {
-            cx.report.harness_error(&format!("case {idx}: create failed: {}", e.brief()));
+            cx.report.rejected();
+            cx.diag.add(&format!("create:{}", e.brief().chars().take(160).collect::<String>()), 1);
             return (0, 0);
         }
     };
@@ -267,7 +268,7 @@ async fn run_case(cx: &Ctx<'_>, seed: u64, idx: u64, thorough: bool, selftest: b
             Outcome::Failed(f) => {
                 // an operation of the history failed with an undocumented error: the state is
                 // still monitored (no effect expected), the failure itself is a diagnostic here
-                cx.diag.add(&format!("failed:{}:{}", op.kind(), f.brief().chars().take(120).collect::<String>()), 1);
+                cx.diag.add(&format!("failed:{}:{}", op.kind(), f.key()), 1);
             }
         }
     }
